@@ -462,12 +462,25 @@ def gen_fraginit(rng, tier):
                 if vc == 'h265':
                     cfg['vps'] = ps(0x40, 6)
                 out.append({'kind': 'frag', 'cfg': cfg, 'calls': [{'op': 'fi'}]})
-    for (w, h) in ((65535, 65535), (65536, 480), (640, 65536)):
-        for via in ('builder', 'config'):
-            cfg = {'vc': 'h264', 'w': w, 'h': h, 'timescale': 90000, 'fragms': 2000, 'via': via, 'unit': 1, 'unit1': True,
-                   'judge_config': True, 'w32': W30, 'i32': W30, 'sps': ps(0x67, 8), 'pps': ps(0x68, 4),
-                   'facets': {'bytes': False, 'timing': False, 'tree': True, 'raw': True}}
-            out.append({'kind': 'frag', 'cfg': cfg, 'calls': [{'op': 'fi'}]})
+    for vc in ('h264', 'h265', 'av1', 'vp9'):
+        for (w, h) in ((65535, 65535), (65536, 480), (640, 65536), (67456, 1080), (1920, 66616), (131072, 131072)):
+            for via in ('builder', 'config'):
+                cfg = {'vc': vc, 'w': w, 'h': h, 'timescale': 90000, 'fragms': 2000, 'via': via, 'unit': 1, 'unit1': True,
+                       'judge_config': True, 'w32': W30, 'i32': W30,
+                       'facets': {'bytes': False, 'timing': False, 'tree': True, 'raw': True}}
+                if vc == 'h264':
+                    cfg['sps'] = ps(0x67, 8)
+                    cfg['pps'] = ps(0x68, 4)
+                elif vc == 'h265':
+                    cfg['vps'] = ps(0x40, 4)
+                    cfg['sps'] = ps(0x42, 16)
+                    cfg['pps'] = ps(0x44, 4)
+                elif vc == 'av1':
+                    cfg['av1'] = [0x0a, len(AV1_SEQ)] + AV1_SEQ
+                else:
+                    cfg['vp9'] = {'width': w, 'height': h, 'profile': 0, 'bit_depth': 8, 'color_space': 1, 'transfer_function': 1,
+                                  'matrix_coefficients': 1, 'level': 0, 'full_range_flag': 0}
+                out.append({'kind': 'frag', 'cfg': cfg, 'calls': [{'op': 'fi'}]})
     # builder without the required parameters must fail
     for vc, missing in [('h264', 'sps'), ('h264', 'pps'), ('h265', 'vps'), ('h265', 'sps'), ('h265', 'pps'), ('av1', 'av1'), ('vp9', 'vp9'), ('h264', 'video')]:
         cfg = {'vc': vc, 'w': 640, 'h': 480, 'timescale': 90000, 'fragms': 2000, 'via': 'builder', 'unit': 1, 'unit1': True,
